@@ -8,6 +8,7 @@ CONSTANTS
   Tolerated <- KnownRecoveryAny
   FnOut = FALSE
   Poller = FALSE
+  Aging = FALSE
   Gen = "off"
 INVARIANTS NoClauseViolated InvQuiescentAtRelease InvDurLagsMem
 CHECK_DEADLOCK TRUE
